@@ -25,7 +25,7 @@ Record kinput := {
   k_suffix : list sel;   (* what the environment goes on offering afterwards *)
   k_mode : Z;            (* transport, see above *)
   k_lossy : bool;        (* mode 1: the server stopped reading at some point: it saw a prefix *)
-  k_srvn : nat;          (* mode 1, lossy: number of keep-alive bytes the server had read *)
+  k_srvn : nat;          (* mode 1, lossy: number of keep-alives the server had read *)
   k_script : list wres;  (* mode 2: results of the successive conn.Write calls (then (len, nil)) *)
   k_end : Z              (* 0 no receive loop (the harness owns quit); 1 a receive loop whose read
                             fails once the connection is gone; 2 a receive loop that is handed the
@@ -63,12 +63,14 @@ Definition act_sx (a : act) : list sx :=
   | AClose => [SZ 2]
   | ATickerStop => []          (* not observable from outside *)
   | AReturn => [SZ 3]
-  | APanic => [SZ 4]
+  | APanic => []               (* interval <= 0 is outside the property: what the code does there is not compared *)
   end.
 
 Definition cact_sx (c : cact) : sx :=
   match c with
-  | CWrite d => SL [SZ 0; SS d]
+  | CWrite d =>
+      (* a whitespace keep-alive is compared as such, not by its bytes *)
+      if is_keepalive_payload d then SL [SZ 0; SZ 1] else SL [SZ 0; SS d]
   | CConnClose => SL [SZ 1]
   end.
 
@@ -98,12 +100,15 @@ Definition run_typed (i : kinput) : sx :=
   let tr := keepalive (k_interval i) (fail_oracle i) (schedule i) in
   let w := wire tr in
   let wire_sx :=
-    if negb (k_mode i =? 1) then SS []
+    (* number of keep-alives the server read in the XML stream, and whether it read only white space *)
+    if negb (k_mode i =? 1) then SL []
     else if k_lossy i
          then (* the server read a prefix of what was handed to the connection *)
-              if Nat.leb (k_srvn i) (length w) then SS (firstn (k_srvn i) w) else SL [SZ (-1)]
-         else (* connection healthy: every successful ping's byte arrives *)
-              SS (flat_map (fun a => match a with APingOk => ping_data | _ => [] end) tr) in
+              if Nat.leb (k_srvn i) (count is_ping tr) then SL [Snat (k_srvn i); SB (forallb xml_ws w)]
+              else SL [SZ (-1)]
+         else (* connection healthy: every successful ping arrives *)
+              SL [Snat (count (fun a => match a with APingOk => true | _ => false end) tr);
+                  SB (forallb xml_ws w)] in
   (* mode 2: everything done to the connection; the closing tag's write fails iff the
      connection is dead for writing, the model does not care *)
   let ct := if k_mode i =? 2 then conn_trace (WErr 0) tr else [] in
